@@ -483,9 +483,11 @@ class Array:
                 if self._datapath.stat().st_size != array.nbytes:
                     raise OSError(f"could not write all data to "
                                   f"'{self._datapath}'")
-            except Exception as exception:
+            except BaseException as exception:
                 # remove what may have been partially written
                 os.truncate(self._datapath, 0)
+                if not isinstance(exception, Exception):
+                    raise  # e.g. KeyboardInterrupt
                 raise AppendDataError(f"{exception}\nAppending of data did "
                                       f"not succeed. Array is still empty.")
             self._update_len(lenincrease=array.shape[0])
@@ -495,13 +497,15 @@ class Array:
             try:
                 for array in arrayiterable:
                     lenincrease += self._append(array=array, fd=fd)
-            except Exception as exception:
+            except BaseException as exception:
                 if fd.closed:
                     fd = open(file=self._datapath, mode=self._accessmode)
                 fd.flush()
                 self._update_len(lenincrease=lenincrease)
                 fd.truncate(self._size * self._dtype.itemsize)
                 fd.close()
+                if not isinstance(exception, Exception):
+                    raise  # e.g. KeyboardInterrupt
                 s = f"{exception}\nAppending of data did not (completely) " \
                     f"succeed. Shape of array was {oldshape} and is now " \
                     f"{self._shape} after an increase in length " \
